@@ -139,7 +139,7 @@ func (r *runner) startOp(st Step) {
 	r.nops++
 	op := st.Op
 	specs := st.Specs
-	if len(specs) == 0 {
+	if len(specs) == 0 && st.Kind != "emptybatch" && st.Kind != "nilbatch" {
 		specs = []bool{st.Kind == "notify"}
 	}
 	var abs []any
@@ -176,6 +176,9 @@ func (r *runner) startOp(st Step) {
 		r.mu.Lock()
 		r.opGid[op] = goid()
 		r.mu.Unlock()
+		if abs == nil {
+			abs = []any{}
+		}
 		r.rec.Log("OpB", "op", op, "kind", st.Kind, "specs", abs)
 		close(started)
 		var res []any
@@ -216,6 +219,19 @@ func (r *runner) startOp(st Step) {
 			errc = classifyErr(r.cli.Notify(ctx, "m", tag(0)))
 			if errc == "rpcerror" {
 				errc = "error"
+			}
+		case "emptybatch", "nilbatch": // a batch of nothing: refused, nothing goes to the channel
+			sp := []jrpc2.Spec{}
+			if st.Kind == "nilbatch" {
+				sp = nil
+			}
+			rsps, err := r.cli.Batch(ctx, sp)
+			errc = classifyErr(err)
+			if errc == "rpcerror" {
+				errc = "error"
+			}
+			for _, rsp := range rsps {
+				res = append(res, rspItem(rsp))
 			}
 		case "batch":
 			var sp []jrpc2.Spec
